@@ -81,6 +81,8 @@ def run(ctx: core.Ctx):
     subunit_close(ctx, T, ctx.rng, 4000 if ctx.tier == "thorough" else 200)
     b2check.run_b2(ctx, lambda rng, th: [(gen.api_close_race(rng, T), rng.randrange(10 ** 9), rng.choice([0, 0, 3])) for _ in range(6000 if th else 150)],
                    ["C16"], label="YncaApi.close() from a second thread during / after initialize(), monitor only", accept=False)
+    b2check.run_b2(ctx, lambda rng, th: [(gen.conn_second_session(rng, "close"), rng.randrange(10 ** 9), rng.choice([0, 3])) for _ in range(4000 if th else 100)], ["C16re"],
+                   label="connect() again on the same object after close() / a lost link; close() of the second session (monitor only)", accept=False)
     b2check.run_b2(ctx, lambda rng, th: [(gen.conn_two(rng), rng.randrange(10 ** 9), rng.choice([0, 0, 3])) for _ in range(4000 if th else 100)],
                    ["C16two"], label="close() of a second connection from inside a callback of the first, monitor only", accept=False)
     ctx.info["rule"] = ("sessions of two caller threads with bursts, a link drop / EOF / write error / close() inserted at a random position, close() from a caller, "
